@@ -195,7 +195,8 @@ Record cchange := {
   ch_minus_pkg : option N;  ch_plus_pkg : option N;
   ch_minus_imports : list pimp;  ch_plus_imports : list pimp;
   ch_minus : npat;  ch_plus : npat;
-  ch_assoc : list (N * N)
+  ch_assoc : list (N * N);
+  ch_blank : N;  ch_dot : N           (* the atoms of "_" and "." *)
 }.
 
 Definition mk_of (c : cchange) : N -> option mkind := fun n => assoc n (ch_mk c).
@@ -299,7 +300,9 @@ Definition add_plus_import (mk : N -> option mkind) (id : idata) (dinit : data)
   end.
 
 (* ImportsReplacer.Cleanup for one matched import *)
-Definition cleanup_import (id : idata) (new_names : list N) (tree : val) (imps : list imp) (pb : N * (option N * N)) : list imp :=
+(* [blank], [dot]: the atoms of the names "_" and "." (interned strings; given by the harness with each case) *)
+Definition cleanup_import (blank dot : N) (plus : list pimp)
+           (id : idata) (new_names : list N) (tree : val) (imps : list imp) (pb : N * (option N * N)) : list imp :=
   let path := fst pb in
   let '(pkgname, impname) :=
     match assoc_ikey (path, fst (snd pb)) (id_bound id) with
@@ -307,7 +310,11 @@ Definition cleanup_import (id : idata) (new_names : list N) (tree : val) (imps :
     | Some (n, false) => (n, Some n)
     | None => (snd (snd pb), None)
     end in
-  if existsb (N.eqb pkgname) new_names || negb (uses_name (S (size tree)) pkgname tree)
+  (* a blank or dot import that the "+" side lists as well stays: nothing refers to it by name (repo fix 6680ffc) *)
+  let kept_by_patch := existsb (fun q => ikey_eqb (p_path q, p_name q) (path, fst (snd pb))) plus in
+  if match impname with Some n => (N.eqb n blank || N.eqb n dot) && kept_by_patch | None => false end
+  then imps
+  else if existsb (N.eqb pkgname) new_names || negb (uses_name (S (size tree)) pkgname tree)
   then del_import imps impname path
   else imps.
 
@@ -344,7 +351,7 @@ Definition apply_change (c : cchange) (g : gofile) : coutcome :=
                   let tree1' := rw mk ad (ch_minus c) (ch_plus c) dinit fuel (g_tree g) in
                   let tree1 := match ch_plus_pkg c with Some p => set_pkg_name tree1' p | None => tree1' end in
                   (* ImportsReplacer.Cleanup *)
-                  OOk {| g_imports := fold_left (cleanup_import id new_names tree1) (id_matched id) imps1; g_tree := tree1 |}
+                  OOk {| g_imports := fold_left (cleanup_import (ch_blank c) (ch_dot c) (ch_plus_imports c) id new_names tree1) (id_matched id) imps1; g_tree := tree1 |}
               end
           end
       end
